@@ -55,6 +55,7 @@ void DataNode :: Reset()
    _parent             = NULL;
    _depth              = 0;
    _maxChildIDHint     = 0;
+   _orderedCounter     = 0;
    _data.Reset();
    _cachedDataChecksum = INVALID_CACHED_CHECKSUM;
 }
